@@ -225,4 +225,14 @@ def trig_domain(repo: Repo) -> RuleRun:
 
 trig_domain.rule_id = "C17.TRIG-DOMAIN"
 
-RULES = [purity, position_writers, link_algebra, affine_kinds, mirror_matrix, trig_domain]
+def params_used(repo: Repo) -> RuleRun:
+    """A clamp lies on the manifold the USER described, a link relates the points the user named: no constructor parameter of
+    clamps / links / the point helpers is overwritten before it is read."""
+    from ..params import dead_params_rule
+
+    return dead_params_rule(repo, PROP, "C17.PARAMS-USED", ("optimize.clamps", "optimize.links", "util.functions"), floor=20)
+
+
+params_used.rule_id = "C17.PARAMS-USED"
+
+RULES = [purity, position_writers, link_algebra, affine_kinds, mirror_matrix, trig_domain, params_used]
